@@ -2,9 +2,12 @@
 """Moves confirmed sub-agent seeds from seeded/_inbox/<PID>/ to seeded/<PID>-<k>/ with a meta.json, and prints the catches table."""
 import json, os, re, shutil, sys
 ROOT = "/verif/seeded"
+INBOX = sys.argv[1] if len(sys.argv) > 1 else "_inbox"
+RESULTS = sys.argv[2] if len(sys.argv) > 2 else "_results"
+TAG = sys.argv[3] if len(sys.argv) > 3 else ""
 rows = []
-for pid in sorted(os.listdir(os.path.join(ROOT, "_inbox"))):
-    d = os.path.join(ROOT, "_inbox", pid)
+for pid in sorted(os.listdir(os.path.join(ROOT, INBOX))):
+    d = os.path.join(ROOT, INBOX, pid)
     for k in (1, 2):
         patch = os.path.join(d, "patch%d.diff" % k)
         if not os.path.exists(patch):
@@ -15,10 +18,10 @@ for pid in sorted(os.listdir(os.path.join(ROOT, "_inbox"))):
             print("skip (not confirmed):", pid, k)
             continue
         res_name = "%s-%d.txt" % (pid, k)
-        res = open(os.path.join(ROOT, "_results", res_name)).read() if os.path.exists(os.path.join(ROOT, "_results", res_name)) else ""
+        res = open(os.path.join(ROOT, RESULTS, res_name)).read() if os.path.exists(os.path.join(ROOT, RESULTS, res_name)) else ""
         caught = "rc=1" in res and "VIOLATION" in res
         loci = sorted(set(re.findall(r"sub-check=(\S+) locus=(\S+)", res)))
-        out = os.path.join(ROOT, "%s-%d" % (pid, k))
+        out = os.path.join(ROOT, "%s-%s%d" % (pid, TAG, k))
         os.makedirs(out, exist_ok=True)
         shutil.copy(reb if os.path.exists(reb) else patch, os.path.join(out, "patch.diff"))
         if os.path.exists(reb):
@@ -46,4 +49,4 @@ for pid in sorted(os.listdir(os.path.join(ROOT, "_inbox"))):
 print("| seed | files | caught by quick tier | first loci |")
 print("|------|-------|----------------------|------------|")
 for pid, k, files, caught, loci in rows:
-    print("| %s-%d | %s | %s | %s |" % (pid, k, ", ".join(os.path.basename(f) for f in files), "yes" if caught else "NO", "; ".join("%s/%s" % (a, b[:70]) for a, b in loci)))
+    print("| %s-%s%d | %s | %s | %s |" % (pid, TAG, k, ", ".join(os.path.basename(f) for f in files), "yes" if caught else "NO", "; ".join("%s/%s" % (a, b[:70]) for a, b in loci)))
